@@ -3,6 +3,7 @@ import Iec.Model.Cli104
 import Iec.Lemmas.Srv104Unconf
 import Iec.Lemmas.Cli104Unconf
 import Iec.Lemmas.Srv104Deadlines
+import Iec.Lemmas.Cli104Deadlines
 /-
 C11 — CS104 acknowledgement duty (w, t2) and supervision timers (t1, t3).
 
@@ -430,5 +431,14 @@ theorem deadlines_met_after_every_tick (s : Iec.Srv104.Slave) (hoc : (Iec.Srv104
     (hu : ((Iec.Srv104.tick s).conn i).isUsed = true) (hr : ((Iec.Srv104.tick s).conn i).isRunning = true) :
     Iec.Srv104.Deadlines (Iec.Srv104.tick s).p (Iec.Srv104.tick s).now ((Iec.Srv104.tick s).conn i) :=
   Iec.Srv104.hcc_deadlines (Iec.Srv104.accept s) hoc i hu hr
+
+/-- **client: t1, t2, t3 are enforced in every pass of the connection loop.** For EVERY client state: if the thread stays in
+its loop after one pass (reception of at most one message, the `w` test, `handleTimeouts`), then it is inside t3 (a TESTFR
+act was sent in this pass at the latest), no U-format act (STARTDT / STOPDT / TESTFR) has been unconfirmed for longer than
+t1, the oldest unacknowledged I-format APDU is not older than t1, and received I-format APDUs have not been left
+unacknowledged for t2 or longer; otherwise the pass has ended the connection (`client_close_iff`). -/
+theorem client_deadlines_met_every_pass (c : Iec.Cli104.Cli) (h3 : (Iec.Cli104.loopIter c).phase = 3) :
+    Iec.Cli104.CDeadlines (Iec.Cli104.loopIter c) :=
+  Iec.Cli104.loopIter_deadlines c h3
 
 end Iec.Props.C11
